@@ -376,9 +376,12 @@ def main(argv):
     sets1 = [x for x in all_sets(1) if x]
     rjobs = [(x, 'requires') for x in sets2]
     for fld in ('requires_private', 'conflicts'):
+        # (an empty conflict set next to requires=['dep'] would be a package
+        # that conflicts with its own requirement at every version)
         rjobs += [(x, fld) for x in sets1] + \
             [(x, fld) for x in rnd.sample(sets2, min(len(sets2), 25 if
-                                                       ck.quick else 400))]
+                                                       ck.quick else 400))
+             if x or fld != 'conflicts']
     rjobs += [(x, 'both') for x in sets2 if len(x) == 2][:25 if ck.quick
                                                         else 400]
     req = pmap(requires_case, rjobs)
